@@ -17,6 +17,20 @@ import Saltpack.Proofs.WireRT
 namespace Saltpack.Proofs
 open Saltpack Saltpack.Armor
 
+/-- **wrong frame type**: the sealed text of one armorable type is refused by
+    the frame check of another -/
+theorem open_seal_wrong_type (typ typ' : Int) (ht : Armorable typ) (ht' : Armorable typ') (hne : typ ≠ typ')
+    (brand : Bytes) (hb : BrandOK brand) (payload : Bytes) :
+    ∃ e, open62 (some typ') (seal62 typ brand payload) = .error e := by
+  obtain ⟨body', heq, hv1, _, _, _⟩ := seal_is_variant typ ht brand hb payload
+  obtain ⟨e, he⟩ := parse_wrong_type typ typ' ht ht' hne brand _ hb hv1
+  refine ⟨e, ?_⟩
+  rw [heq, open62_text]
+  unfold open62 openPure
+  have h1 : ¬ ((header typ brand).length ≥ frameLim) := by
+    have := hv1.lim; unfold frameLim; omega
+  simp only [splitAt1_append _ _ _ (valid_ne_period _ hv1.valid), toASCII_valid _ hv1.valid, if_neg h1, he]
+
 /-- **`EncryptArmor62Seal` ∘ `Dearmor62DecryptOpen`** (any keyring holding a
     recipient's key): the armored text dearmors — with validated
     `BEGIN/END [brand] SALTPACK ENCRYPTED MESSAGE` frames — to exactly the binary
